@@ -355,15 +355,58 @@ static void run_odd_states(void) {
 	}
 }
 
+/* ---- send into a full pipe: non-blocking => would-block at once (no poll); timed => timed-out not before T ---- */
+static long long st_fullpipe;
+static void run_full_pipe(void) {
+	int mode;
+	for (mode = 0; mode < 4; mode++) {             /* bit0: v6, bit1: timed-blocking instead of non-blocking */
+		pid_t pid; int status, waited = 0; int v6 = mode & 1, timed = (mode >> 1) & 1;
+		fflush(stdout);
+		pid = fork();
+		if (pid == 0) {
+			PSocketAddress *la = loop_addr(v6, 0), *ba; PSocket *ls, *cl, *ac; static char chunk[32768]; int i; PError *err = NULL;
+			ls = p_socket_new(v6 ? P_SOCKET_FAMILY_INET6 : P_SOCKET_FAMILY_INET, P_SOCKET_TYPE_STREAM, P_SOCKET_PROTOCOL_TCP, NULL);
+			if (!ls || !p_socket_bind(ls, la, TRUE, NULL) || !p_socket_listen(ls, NULL)) _exit(9);
+			ba = p_socket_get_local_address(ls, NULL);
+			cl = p_socket_new(v6 ? P_SOCKET_FAMILY_INET6 : P_SOCKET_FAMILY_INET, P_SOCKET_TYPE_STREAM, P_SOCKET_PROTOCOL_TCP, NULL);
+			p_socket_set_timeout(cl, 2000); p_socket_set_timeout(ls, 2000);
+			if (!cl || !p_socket_connect(cl, ba, NULL)) _exit(9);
+			ac = p_socket_accept(ls, NULL); if (!ac) _exit(9);      /* the peer never reads */
+			p_socket_set_buffer_size(cl, P_SOCKET_DIRECTION_SND, 8192, NULL); p_socket_set_buffer_size(ac, P_SOCKET_DIRECTION_RCV, 8192, NULL);
+			if (timed) p_socket_set_timeout(cl, 60); else p_socket_set_blocking(cl, FALSE);
+			for (i = 0; i < 4096; i++) {
+				pssize n; uint64_t t0 = vh_now_ns(); double el;
+				w_t_polls = 0; n = p_socket_send(cl, chunk, sizeof chunk, &err); el = (double)(vh_now_ns() - t0) / 1e6;
+				if (n > 0) { p_error_free(err); err = NULL; continue; }
+				if (!timed) { if (!err || p_error_get_code(err) != P_ERROR_IO_WOULD_BLOCK) _exit(6); if (w_t_polls) _exit(7); _exit(0); }
+				if (!err || p_error_get_code(err) != P_ERROR_IO_TIMED_OUT) _exit(6); if (el < 60 - 1.0) _exit(8); _exit(0);
+			}
+			_exit(5);
+		}
+		while (waited < 1500) { if (waitpid(pid, &status, WNOHANG) == pid) break; usleep(10000); waited++; }
+		st_fullpipe++;
+		cur = "p_socket_send";
+		if (waited >= 1500) { kill(pid, SIGKILL); waitpid(pid, &status, 0); viol(timed ? "timed-send-full-pipe-never-returns" : "nonblocking-send-full-pipe-never-returns", "%s p_socket_send into a connection whose peer does not read did not return within 15 s", timed ? "a timed (60 ms)" : "a non-blocking"); }
+		else if (WIFSIGNALED(status)) viol("killed-by-signal", "send into a full pipe killed the process with signal %d", WTERMSIG(status));
+		else switch (WEXITSTATUS(status)) {
+			case 0: case 9: break;
+			case 5: st_skipped++; break;             /* the pipe never filled */
+			case 6: viol(timed ? "timed-wrong-error" : "nonblocking-wrong-error", "send into a full pipe failed with another error than %s", timed ? "timed-out" : "would-block"); break;
+			case 7: viol("nonblocking-waited", "non-blocking send into a full pipe called poll()"); break;
+			case 8: viol("timed-out-early", "timed send into a full pipe failed before its 60 ms timeout"); break;
+		}
+	}
+}
+
 int main(int argc, char **argv) {
 	vh_rng r; double t0 = vh_now(); long long n = vh_argi(argc, argv, "--n", 300); int fixed = (int)vh_argi(argc, argv, "--fixed", 10);
 	vh_seed(&r, (uint64_t)vh_argi(argc, argv, "--seed", 1) * 0x8CB92BA72F3D8DD7ULL);
 	p_libsys_init();
 	run_sequences(&r, n, (int)vh_argi(argc, argv, "--maxcalls", 30));
 	run_fixed(&r, fixed);
-	if (!vh_flag(argc, argv, "--no-odd")) run_odd_states();
+	if (!vh_flag(argc, argv, "--no-odd")) { run_odd_states(); run_full_pipe(); }
 	p_libsys_shutdown();
 	printf("{\"ev\":\"stats\",\"sequences\":%lld,\"calls\":%lld,\"distinct_states\":%zu,\"distinct_transitions\":%zu,\"timed_cases\":%lld,\"timed_cases_with_interrupted_poll\":%lld,\"nonblocking_cases\":%lld,\"closed_socket_calls\":%lld,\"accepts\":%lld,\"connects\":%lld,"
-	       "\"untimed_blocking\":%lld,\"odd_state_probes\":%lld,\"cloexec_checked\":%lld,\"skipped\":%lld,\"viol\":%d,\"wall\":%.2f}\n", st_seq, st_calls, scnt, tcnt, st_timed, st_timed_eintr, st_nonblock, st_closed_calls, st_accepts, st_connects, st_untimed, st_odd, st_cloexec_checked, st_skipped, vh_nviol, vh_now() - t0);
+	       "\"untimed_blocking\":%lld,\"odd_state_probes\":%lld,\"full_pipe_cases\":%lld,\"cloexec_checked\":%lld,\"skipped\":%lld,\"viol\":%d,\"wall\":%.2f}\n", st_seq, st_calls, scnt, tcnt, st_timed, st_timed_eintr, st_nonblock, st_closed_calls, st_accepts, st_connects, st_untimed, st_odd, st_fullpipe, st_cloexec_checked, st_skipped, vh_nviol, vh_now() - t0);
 	return 0;
 }
